@@ -1,6 +1,6 @@
 (** C05 — Transient storage failures never leave gaps or false acknowledgements. *)
 From Coq Require Import List NArith Bool.
-From LS Require Import Faults.Upload Faults.Proofs.
+From LS Require Import Faults.Resumable Faults.Upload Faults.Compact Faults.Proofs.
 Import ListNotations.
 Local Open Scope N_scope.
 
@@ -45,3 +45,29 @@ Theorem catch_up : forall fl st, reach fl st ->
   (forall t, In t (u_remote (s_st r)) <-> fl <= t <= N.max (maxl (u_remote st)) (maxl (u_local st))).
 Proof. exact Proofs.catch_up. Qed.
 Print Assumptions catch_up.
+
+(** The compaction pipe, for every schedule of source-read faults (any number,
+    below or beyond the resumable reader's budget, not-exist, premature EOF) and
+    every outcome of the write call: nothing but the complete merge of completely
+    read, verified sources is ever published under the destination name; an
+    error leaves the cache untouched (and the level too, unless the write took
+    effect and then failed — with the complete object); a failed source read
+    makes the writer close with the error and publishes nothing.  The merge, the
+    input verification and the bytes written before a failure are abstract. *)
+Theorem compact_no_partial_publish : forall (B : Type) (merge : list (list B) -> list B)
+    (verified : list B -> bool) (partial : list (option (list B)) -> list B)
+    (stored : csrc -> list B) (chunk : nat) srcs wo st,
+  Forall (fun s => (0 < length (stored s))%nat) srcs ->
+  let '(r, st') := compact merge verified partial stored chunk srcs wo st in
+  let mn := span_min srcs in
+  let mx := span_max srcs in
+  (forall f, In f (c_dst st') ->
+     In f (c_dst st) \/
+     (f = mkCF mn mx (merge (map stored srcs)) /\ all_read_ok verified stored chunk srcs /\ (wo = Ok \/ wo = FailAfter))) /\
+  (r = COk -> In (mkCF mn mx (merge (map stored srcs))) (c_dst st') /\ c_cache st' = Some (mn, mx) /\ wo = Ok) /\
+  (r <> COk -> c_cache st' = c_cache st /\ (c_dst st' = c_dst st \/ wo = FailAfter)) /\
+  ((exists s, In s srcs /\ (cs_open_fail s = true \/ src_read stored chunk s = None \/
+                           exists d, src_read stored chunk s = Some d /\ verified d = false)) ->
+     r <> COk /\ c_dst st' = c_dst st /\ c_cache st' = c_cache st).
+Proof. exact Proofs.compact_no_partial_publish. Qed.
+Print Assumptions compact_no_partial_publish.
